@@ -64,6 +64,8 @@ impl ToVal for bool { fn to_val(&self) -> Value { json!({"k":"bool","v": self}) 
 impl ToVal for String { fn to_val(&self) -> Value { json!({"k":"str","v": chars(self)}) } }
 impl<T: ToVal> ToVal for Option<T> { fn to_val(&self) -> Value { match self { None => json!({"k":"null"}), Some(x) => x.to_val() } } }
 impl<T: ToVal> ToVal for Vec<T> { fn to_val(&self) -> Value { json!({"k":"list","v": self.iter().map(|x| x.to_val()).collect::<Vec<_>>()}) } }
+impl<A: ToVal, B: ToVal, C: ToVal> ToVal for (A, B, C) { fn to_val(&self) -> Value { json!({"k":"list","v": [self.0.to_val(), self.1.to_val(), self.2.to_val()]}) } }
+impl<T: ToVal> ToVal for [T; 2] { fn to_val(&self) -> Value { json!({"k":"list","v": [self[0].to_val(), self[1].to_val()]}) } }
 impl<A: ToVal, B: ToVal> ToVal for (A, B) { fn to_val(&self) -> Value { json!({"k":"list","v": [self.0.to_val(), self.1.to_val()]}) } }
 
 #[derive(serde::Deserialize)]
@@ -80,8 +82,8 @@ fn dec<T: DeserializeOwned + ToVal>(v: &FieldValue) -> Value {
     })
 }
 
-pub const TARGETS: [&str; 19] = ["i8", "i16", "i32", "i64", "u8", "u16", "u32", "u64", "f32", "f64", "bool", "String",
-    "Option<i64>", "Option<u8>", "Option<String>", "Vec<i64>", "Vec<Option<i64>>", "(i64,i64)", "Vec<Vec<i64>>"];
+pub const TARGETS: [&str; 23] = ["i8", "i16", "i32", "i64", "u8", "u16", "u32", "u64", "f32", "f64", "bool", "String",
+    "Option<i64>", "Option<u8>", "Option<String>", "Vec<i64>", "Vec<Option<i64>>", "(i64,i64)", "Vec<Vec<i64>>", "(i64,i64,i64)", "[i64;2]", "Vec<(i64,i64)>", "Option<(u8,u8)>"];
 
 /// input {"values":[..]}; one output line per value: {"i", "v", "res": {target: outcome}}
 pub fn decode_all(input: &Value) -> Vec<Value> {
@@ -94,6 +96,7 @@ pub fn decode_all(input: &Value) -> Vec<Value> {
             "f32": dec::<f32>(&v), "f64": dec::<f64>(&v), "bool": dec::<bool>(&v), "String": dec::<String>(&v),
             "Option<i64>": dec::<Option<i64>>(&v), "Option<u8>": dec::<Option<u8>>(&v), "Option<String>": dec::<Option<String>>(&v),
             "Vec<i64>": dec::<Vec<i64>>(&v), "Vec<Option<i64>>": dec::<Vec<Option<i64>>>(&v), "(i64,i64)": dec::<(i64, i64)>(&v), "Vec<Vec<i64>>": dec::<Vec<Vec<i64>>>(&v),
+            "(i64,i64,i64)": dec::<(i64, i64, i64)>(&v), "[i64;2]": dec::<[i64; 2]>(&v), "Vec<(i64,i64)>": dec::<Vec<(i64, i64)>>(&v), "Option<(u8,u8)>": dec::<Option<(u8, u8)>>(&v),
         });
         json!({"i": i + 1, "v": vj, "res": res})
     }).collect()
